@@ -6,7 +6,8 @@
 (* (PropRecompute / PropChain on the history consumed so far).             *)
 (*                                                                         *)
 (* File (JSON): [mode |-> "plan" | "validate", episodes |-> <<...>>]       *)
-(* episode: [ep, k, niter, events, interp]                                 *)
+(* episode: [ep, k, clip, niter, events, interp]                           *)
+(*   clip  : max_norm > 0 (BOOLEAN); when FALSE the norm clause is vacuous *)
 (*   event : [t |-> "call"|"reset", sym, solves, exc, oid, wid, norm_ok]   *)
 (*           sym    matrix identifier (string)                              *)
 (*           solves number of cvxpy Problem.solve invocations of the call  *)
@@ -34,16 +35,16 @@ Episodes == TFile.episodes
 NEp      == Len(Episodes)
 
 VARIABLES ep, pos, stage, nAcc, nRej, nCalls
-tvars == <<k, niter, hist, inst, fresh, calls, ep, pos, stage, nAcc, nRej, nCalls>>
+tvars == <<k, clipOn, niter, hist, inst, fresh, calls, ep, pos, stage, nAcc, nRej, nCalls>>
 
 E  == Episodes[ep]
 Ev == E.events[pos]
 
-TInit == /\ k = 1 /\ niter = 20 /\ hist = <<>> /\ inst = NewInst /\ fresh = NewInst /\ calls = <<>>
+TInit == /\ k = 1 /\ clipOn = TRUE /\ niter = 20 /\ hist = <<>> /\ inst = NewInst /\ fresh = NewInst /\ calls = <<>>
          /\ ep = 1 /\ pos = 1 /\ stage = "load" /\ nAcc = 0 /\ nRej = 0 /\ nCalls = 0
 
 Load == /\ ep <= NEp /\ stage = "load"
-        /\ k' = E.k /\ niter' = E.niter /\ hist' = <<>> /\ inst' = NewInst /\ fresh' = NewInst /\ calls' = <<>>
+        /\ k' = E.k /\ clipOn' = E.clip /\ niter' = E.niter /\ hist' = <<>> /\ inst' = NewInst /\ fresh' = NewInst /\ calls' = <<>>
         /\ pos' = 1 /\ stage' = "events"
         /\ UNCHANGED <<ep, nAcc, nRej, nCalls>>
 
@@ -65,7 +66,7 @@ Clause(J) ==
          THEN "reuse_call_did_not_apply_the_weights_of_the_recompute_call_of_its_period"
     ELSE IF Interp(J) = {} THEN "MISSING"
     ELSE IF \E i \in Interp(J) : E.interp[i].oid # Ev.oid THEN "output_is_not_clip_of_scheduled_weights_times_matrix"
-    ELSE IF ~Ev.norm_ok THEN "norm_exceeds_max_norm"
+    ELSE IF clipOn /\ ~Ev.norm_ok THEN "norm_exceeds_max_norm"
     ELSE "none"
 
 \* the implementation layer must agree with the property layer on the consumed history
@@ -92,7 +93,7 @@ TCall == /\ ep <= NEp /\ stage = "events" /\ pos <= Len(E.events) /\ Ev.t = "cal
                                                recompute |-> WantRe(Ev.sym), ref |-> WantRef(Ev.sym),
                                                chain |-> WantChain(Ev.sym)])>>)
                  /\ NextEp(FALSE)
-                 /\ UNCHANGED <<k, niter, hist, inst, fresh, calls, nCalls>>
+                 /\ UNCHANGED <<k, clipOn, niter, hist, inst, fresh, calls, nCalls>>
 
 TReset == /\ ep <= NEp /\ stage = "events" /\ pos <= Len(E.events) /\ Ev.t = "reset"
           /\ Reset /\ pos' = pos + 1
@@ -100,13 +101,13 @@ TReset == /\ ep <= NEp /\ stage = "events" /\ pos <= Len(E.events) /\ Ev.t = "re
 
 TFinish == /\ ep <= NEp /\ stage = "events" /\ pos = Len(E.events) + 1
            /\ NextEp(TRUE)
-           /\ UNCHANGED <<k, niter, hist, inst, fresh, calls, nCalls>>
+           /\ UNCHANGED <<k, clipOn, niter, hist, inst, fresh, calls, nCalls>>
 
 TDone == /\ ep = NEp + 1 /\ stage = "load"
          /\ PrintT(<<"SUMMARY", ToJson([episodes |-> NEp, accepted |-> nAcc, rejected |-> nRej,
                                          calls |-> nCalls, mode |-> Mode])>>)
          /\ stage' = "end"
-         /\ UNCHANGED <<k, niter, hist, inst, fresh, calls, ep, pos, nAcc, nRej, nCalls>>
+         /\ UNCHANGED <<k, clipOn, niter, hist, inst, fresh, calls, ep, pos, nAcc, nRej, nCalls>>
 
 TNext == Load \/ TCall \/ TReset \/ TFinish \/ TDone
 TraceSpec == TInit /\ [][TNext]_tvars
